@@ -1,6 +1,6 @@
 //! C03 — phonetic output is the Avro transliteration of exactly what was typed.
 
-use crate::driver::{Ctx, Opts, Sandbox};
+use crate::driver::{keys, Ctx, Opts, Sandbox};
 use crate::model::{avro, curl_close, curl_open, ref_split, uncurl};
 use crate::props::c01::panic_kind;
 use crate::runner::{hash_of, with_fresh_retry, Failure, Run, Stats};
@@ -332,7 +332,64 @@ fn joiner_words(run: &Run) {
     run.require_label("joiner-word-cases", 100);
 }
 
+/// "the transliteration of exactly what was typed": a character is a character whichever key produced it.  Every text of
+/// up to three characters over digits, the number-pad marks (. + - * / =) and two letters is typed once with the
+/// number-pad keys (for every character that has one) and once with the main-block keys; list off, list on, list +
+/// English: the two contexts must show the same thing after every key.
+fn number_pad_keys_are_characters(run: &Run) {
+    let alphabet: Vec<char> = "12.+-*/=ak".chars().collect();
+    let mut texts: Vec<String> = vec![];
+    for a in &alphabet {
+        texts.push(a.to_string());
+        for b in &alphabet {
+            texts.push(format!("{a}{b}"));
+            for c in &alphabet {
+                texts.push(format!("{a}{b}{c}"));
+            }
+        }
+    }
+    run.exhaustive(
+        "number-pad-keys-are-characters-too",
+        &texts,
+        |_| {
+            let sb = Sandbox::new();
+            let ctxs: Vec<(Ctx, Ctx)> = ["q", "sq", "sqe"].iter().map(|o| (Ctx::new(Opts::parse(o), &sb).expect("context"), Ctx::new(Opts::parse(o), &sb).expect("context"))).collect();
+            (sb, ctxs)
+        },
+        |text, st, (_sb, ctxs)| {
+            if !text.chars().any(|c| keys().numpad_code_for(c).is_some()) {
+                return Ok(());
+            }
+            for (pad, main) in ctxs.iter() {
+                let case = || json!({"number_pad_text": text, "opts": pad.opts.letters()});
+                let pf = |p: crate::driver::PanicInfo| Failure::new(panic_kind(&p), p.to_string(), case());
+                pad.finish().map_err(pf)?;
+                main.finish().map_err(pf)?;
+                for (i, ch) in text.chars().enumerate() {
+                    let code = keys().numpad_code_for(ch).unwrap_or_else(|| keys().code_for(ch));
+                    let a = pad.key(code, 0, 0).map_err(pf)?;
+                    let b = main.ch(ch, 0).map_err(pf)?;
+                    st.evals(1);
+                    if a != b {
+                        return Err(Failure::new(
+                            "number-pad-key-is-another-character",
+                            format!("typed {:?} ({}): with the number-pad keys {} but with the main-block keys {}", text.chars().take(i + 1).collect::<String>(), pad.opts.letters(), a.short(), b.short()),
+                            case(),
+                        ));
+                    }
+                }
+                pad.finish().map_err(pf)?;
+                main.finish().map_err(pf)?;
+            }
+            st.label("typed-with-number-pad-keys");
+            st.nontrivial(hash_of(&("numpad", text)), || json!({"typed_with_number_pad_keys": text}));
+            Ok(())
+        },
+    );
+}
+
 pub fn run(run: &Run) {
+    number_pad_keys_are_characters(run);
     commit_then_type(run);
     long_words(run);
     joiner_words(run);
